@@ -22,6 +22,7 @@ type viewChecker struct {
 	// retView[fn] = parameter index the function's slice result is always a view of (or -1)
 	retView map[*ssa.Function]int
 	busy    map[*ssa.Function]bool
+	inProgress map[string]bool
 }
 
 // viewOf reports whether v is root, nil, or obtained from root only by re-slicing / slice conversions.
@@ -90,6 +91,17 @@ func (vc *viewChecker) viewOf(v, root ssa.Value, depth int) (bool, string) {
 
 // fieldStoresAreViews: every store to alloc.field[path] stores a view of root (or the zero value).
 func (vc *viewChecker) fieldStoresAreViews(al *ssa.Alloc, path []int, root ssa.Value, depth int) (bool, string) {
+	// a field that is re-sliced from itself (frame.ether = frame.ether[:n]) refers back to its own stores: assume the
+	// field is a view while its stores are being checked (the claim is inductive over the stores)
+	key := fmt.Sprintf("%p%v", al, path)
+	if vc.inProgress == nil {
+		vc.inProgress = map[string]bool{}
+	}
+	if vc.inProgress[key] {
+		return true, ""
+	}
+	vc.inProgress[key] = true
+	defer delete(vc.inProgress, key)
 	n := 0
 	var bad string
 	var visit func(addr ssa.Value, rest []int)
